@@ -194,6 +194,11 @@ def _quat(rng):
         k = int(rng.integers(1, 4)); P[1:] = 0; P[k] = rng.normal(); P[0] = rng.normal()  # axis aligned
     elif c == 4:
         P[0] = rng.normal() * 1e-9                   # near half turn
+    elif c == 5:
+        while True:                                  # sign / zero pattern: exact zeros, equal magnitudes, no positive component, ...
+            P = rng.integers(-1, 2, size=4).astype(float)
+            if np.any(P):
+                break
     if not np.any(P):
         P[0] = 1.0
     P = P / np.linalg.norm(P)
@@ -207,7 +212,7 @@ def _quat(rng):
         length = 1.0 + (1 if rng.random() < 0.5 else -1) * loguniform(rng, 1e-15, 1e-4)
     else:
         length = loguniform(rng, 1e-100, 1e100)
-    return P * length, ["half", "ident", "dynrange", "axis", "nearhalf", "gen", "gen", "gen"][c], ["unit", "moderate", "extreme", "extreme", "nearunit"][mode]
+    return P * length, ["half", "ident", "dynrange", "axis", "nearhalf", "pattern", "gen", "gen"][c], ["unit", "moderate", "extreme", "extreme", "nearunit"][mode]
 
 
 def run_float(ctx, n):
